@@ -244,6 +244,12 @@ pub fn build(tier: Tier) -> Check<'static> {
         }));
     }
     {
+        let sp = pp::directive_body_profile();
+        c.parts.push(Part::new("directive-bodies", sp.len(), "macros whose text holds directives (executed when the macro is used)", move |i, acc| {
+            pp::check_prog(acc, &sp.get(i), or, "directive bodies");
+        }));
+    }
+    {
         let sp = pp::cond_profile(true, true);
         let stride = tier.pick(7, 1);
         let n = (sp.len() + stride - 1) / stride;
